@@ -3,6 +3,8 @@
 package mimetype
 
 import (
+	"encoding/hex"
+	"sort"
 	vtar "archive/tar"
 	"bytes"
 	"fmt"
@@ -36,7 +38,7 @@ func vfExecMore5(f []string, op string) (string, bool) {
 				break
 			}
 			if vfSafeDet(c.detector, hdr, uint32(lim64)) == "T" {
-				earlier = "y"
+				earlier = "y:" + vfHex([]byte(c.mime)) // which higher-priority root format accepts the header
 				break
 			}
 		}
@@ -160,6 +162,50 @@ func (g *vfGen) genC18() {
 				c[pos] = v
 				g.emit(vfOp("tar", "bad", []int{0, 3072, 512}[g.intn(3)], c))
 			}
+		}
+	}
+	// member names that begin with the signature of another format: only the formats the property lists in front
+	// of tar may take such an archive
+	{
+		fx := vfLoadFacts()
+		seen := map[string]bool{}
+		var names []string
+		for _, sigs := range fx.Signatures {
+			for _, sh := range sigs {
+				lit, _ := hex.DecodeString(sh)
+				if len(lit) < 2 || len(lit) > 40 || seen[string(lit)] {
+					continue
+				}
+				ok := true
+				for _, c := range lit {
+					if c < 0x20 || c > 0x7E {
+						ok = false
+					}
+				}
+				if ok {
+					seen[string(lit)] = true
+					names = append(names, string(lit))
+				}
+			}
+		}
+		sort.Strings(names)
+		for k, nm := range names {
+			var buf bytes.Buffer
+			w := vtar.NewWriter(&buf)
+			body := g.textBytes(40)
+			h := &vtar.Header{Typeflag: vtar.TypeReg, Name: nm + "notes.txt", Mode: 0o644, Size: int64(len(body)), Uname: "user", Gname: "group",
+				ModTime: time.Unix(1700000000, 0), Format: []vtar.Format{vtar.FormatUSTAR, vtar.FormatPAX, vtar.FormatGNU}[k%3]}
+			if err := w.WriteHeader(h); err != nil {
+				continue
+			}
+			w.Write(body)
+			w.Close()
+			a := append([]byte{}, buf.Bytes()...)
+			if len(a) < 512 {
+				continue
+			}
+			g.emit(vfOp("tar", "ok", 0, a))
+			g.emit(vfOp("tar", "ok", 3072, a))
 		}
 	}
 	// directed headers from the standard writer: base-256 numeric fields (size >= 8 GiB, large ids,
